@@ -27,9 +27,10 @@ MAX_TERMS = 400
 
 
 class Pol:
-    def __init__(self, P, func):
+    def __init__(self, P, func, opaque=()):
         self.P = P
         self.f = func
+        self.opaque = set(opaque)  # local names kept as atoms instead of being substituted
         self.du = get_defuse(func, P)
         self.unknown = []  # opaque constructs met
 
@@ -139,6 +140,8 @@ class Pol:
                     sc[el.id] = self._elem_terms(it, stmt, sc, seen, i)
 
     def _var(self, name, stmt, seen):
+        if name in self.opaque:
+            return [(1, frozenset({name}))]
         rd = self.du.reaching(stmt, name) if stmt is not None else []
         if not rd:
             if not self.du.all_defs(name):
@@ -248,6 +251,9 @@ class Pol:
             return [(1, frozenset())]
         if name == "where" and len(args) == 3:
             return T(args[1], stmt, scope, seen) + T(args[2], stmt, scope, seen)
+        if name in ("power", "float_power") and len(args) == 2 and isinstance(args[1], ast.Constant) and args[1].value == 2:
+            l = T(args[0], stmt, scope, seen)
+            return self._prod(l, l)
         if name in ("abs", "exp", "sqrt", "inv", "pinv", "log", "cholesky", "solve", "power", "len", "int", "maximum", "minimum", "clip"):
             atoms = frozenset()
             for a in args:
